@@ -220,10 +220,13 @@ def select_region(body, region):
         raise EngineError('region anchor not found: %r' % start)
     i1 = len(body)
     if end:
+        end_nth = region.get('end_nth', 1)     # the region ends before the n-th later statement that starts with the end anchor
         for j in range(i0 + 1, len(body)):
             if _norm(ast.unparse(body[j])).startswith(_norm(end)):
-                i1 = j
-                break
+                end_nth -= 1
+                if end_nth == 0:
+                    i1 = j
+                    break
         else:
             raise EngineError('region end anchor not found: %r' % end)
     return body[i0:i1]
